@@ -32,6 +32,12 @@ boolean / string / numeric expressions on which the C16 theorems turn and which 
     k_vm_taxazfill, k_vm_traitzfill   ceil(log10(n)) + 1
     k_vm_columns          to_pandas: output column -> (label array, axis of flattenix(self.mat) that indexes it), in column order
     k_vm_from_axes        from_pandas: for `mat[femaleix, maleix, traitix] = variance_data`, the frame column each index derives from
+  DensePhasedGenotypeMatrix.from_vcf (c = pgm) / DenseGenotypeMatrix.from_vcf (c = gm), matched statement by statement
+    k_vcf_<c>_chrom, k_vcf_<c>_phypos   what is appended to vrnt_chrgrp / vrnt_phypos, over int(variant.CHROM), variant.POS, .start, .end
+    k_vcf_<c>_name                      str(variant.ID)
+    k_vcf_<c>_allele_lo/_hi             the columns of variant.genotypes kept (phases[:, LO:HI])
+    k_vcf_<c>_transpose, k_vcf_gm_sum_axis   numpy.int8(mat).transpose(...), mat.sum(<axis>, dtype = 'int8')
+    k_vcf_<c>_ctor                      constructor field -> the local array it is filled from
 
 `Model/C16_Kernel.v` writes h5py_File_write_dict / to_hdf5 / the unit conversions / the long-table layout in terms of these
 definitions, `Proofs/C16_Kernel.v` proves them equal to the hand model (`reflexivity` wherever possible) and `Props/C16.v` restates
@@ -596,6 +602,106 @@ def open_kernels(classes, defs):
     return len(rows)
 
 
+# ------------------------------------------------------------------------------------------------ VCF importers
+VCF_IMPORTERS = (("pgm", "pybrops/popgen/gmat/DensePhasedGenotypeMatrix.py", "DensePhasedGenotypeMatrix"),
+                 ("gm", "pybrops/popgen/gmat/DenseGenotypeMatrix.py", "DenseGenotypeMatrix"))
+_VCF_ATTRS = {"int(variant.CHROM)": "chrom", "variant.POS": "POS", "variant.start": "start", "variant.end": "end_"}
+_VCF_PARAMS = [("chrom", "Z"), ("POS", "Z"), ("start", "Z"), ("end_", "Z")]
+
+def bind_any(expr, table):
+    """like kernelkit.bind, but a key need not occur (which attribute an expression reads is what is being extracted)"""
+    import copy
+    class T(ast.NodeTransformer):
+        def visit(self, node):
+            if isinstance(node, ast.expr) and src(node) in table:
+                return ast.copy_location(ast.Name(id=table[src(node)], ctx=ast.Load()), node)
+            return self.generic_visit(node)
+    return T().visit(copy.deepcopy(expr))
+
+
+def vcf_kernels(repo, defs):
+    """both from_vcf bodies, matched statement by statement (fail closed):
+         vcf = cyvcf2.VCF(filename) ; taxa = numpy.array(vcf.samples, dtype = object) ; mat/vrnt_chrgrp/vrnt_phypos/vrnt_name = []
+         for variant in vcf:
+             vrnt_chrgrp.append(<Z expression over int(variant.CHROM), variant.POS, variant.start, variant.end>)   -> k_vcf_<c>_chrom
+             vrnt_phypos.append(<the same fragment>)                                                              -> k_vcf_<c>_phypos
+             vrnt_name.append(str(variant.ID))                                                                    -> k_vcf_<c>_name
+             phases = numpy.int8(variant.genotypes) ; mat.append(phases[:, LO:HI].copy())                         -> k_vcf_<c>_allele_lo/_hi
+         mat = numpy.int8(mat).transpose(A, B, C)                                                                 -> k_vcf_<c>_transpose
+         [gm: ploidy = mat.shape[0] ; mat = mat.sum(AX, dtype = 'int8')]                                          -> k_vcf_gm_sum_axis
+         vrnt_chrgrp = numpy.int64(vrnt_chrgrp) ; vrnt_phypos = numpy.int64(vrnt_phypos) ; vrnt_name = numpy.array(vrnt_name, dtype = object)
+         out = cls(<field> = <the local of the same name>, ...)                                                   -> k_vcf_<c>_ctor
+         if auto_group_vrnt: out.group_vrnt() ; return out"""
+    for tag, rel, cls in VCF_IMPORTERS:
+        where = cls + ".from_vcf"
+        fn = P.find_function(repo, rel, where)
+        params = [a.arg for a in fn.args.args]
+        if params != ["cls", "filename", "auto_group_vrnt"] or fn.args.vararg or fn.args.kwarg or fn.args.kwonlyargs: raise U("%s: parameters %s" % (where, params))
+        if [src(d) for d in fn.args.defaults] != ["True"]: raise U("%s: defaults %s" % (where, [src(d) for d in fn.args.defaults]))
+        body = [s for s in no_doc(fn.body) if not (isinstance(s, ast.Expr) and isinstance(s.value, ast.Call) and src(s.value.func).startswith("check_"))]
+        loops = [s for s in body if isinstance(s, ast.For)]
+        if len(loops) != 1 or src(loops[0].target) != "variant" or src(loops[0].iter) != "vcf" or loops[0].orelse:
+            raise U("%s: expected exactly one loop `for variant in vcf`" % where)
+        k = body.index(loops[0])
+        pre = [src(s) for s in body[:k]]
+        if pre != ["vcf = cyvcf2.VCF(filename)", "taxa = numpy.array(vcf.samples, dtype=object)", "mat = []", "vrnt_chrgrp = []", "vrnt_phypos = []", "vrnt_name = []"]:
+            raise U("%s: statements before the loop are %s" % (where, pre))
+        lb = loops[0].body
+        if len(lb) != 5: raise U("%s: the loop body has %d statements (expected 3 appends, phases, mat.append)" % (where, len(lb)))
+        def appended(st, lst):
+            if not (isinstance(st, ast.Expr) and isinstance(st.value, ast.Call) and src(st.value.func) == lst + ".append" and len(st.value.args) == 1 and not st.value.keywords):
+                raise U("%s: expected `%s.append(<expr>)`, found `%s`" % (where, lst, src(st)))
+            return st.value.args[0]
+        for st, lst, nm in ((lb[0], "vrnt_chrgrp", "chrom"), (lb[1], "vrnt_phypos", "phypos")):
+            e = appended(st, lst)
+            e2 = bind_any(e, _VCF_ATTRS)
+            extra = set(P.names_in(e2)) - set(_VCF_ATTRS.values())
+            if extra: raise U("%s: %s.append(%s) reads %s (only int(variant.CHROM), variant.POS, variant.start, variant.end are modelled)" % (where, lst, src(e), sorted(extra)))
+            defs.append(P.definition("k_vcf_%s_%s" % (tag, nm), _VCF_PARAMS, "Z", P.to_coq(e2, P.Ctx("Z", {v: v for v in _VCF_ATTRS.values()})),
+                                     "%s: %s.append(%s)   [chrom = int(variant.CHROM), end_ = variant.end]" % (where, lst, src(e))))
+        e = appended(lb[2], "vrnt_name")
+        if src(e) != "str(variant.ID)": raise U("%s: vrnt_name.append(%s): only str(variant.ID) is modelled" % (where, src(e)))
+        defs.append(P.definition("k_vcf_%s_name" % tag, [("ID", "option (list Z)")], "list Z", "match ID with Some s => s | None => %s end" % zlit("None"),
+                                 "%s: vrnt_name.append(%s)   [cyvcf2 gives None for a '.' identifier; str(None) = 'None']" % (where, src(e))))
+        if src(lb[3]) != "phases = numpy.int8(variant.genotypes)": raise U("%s: `%s`" % (where, src(lb[3])))
+        e = appended(lb[4], "mat")
+        ok = (isinstance(e, ast.Call) and isinstance(e.func, ast.Attribute) and e.func.attr == "copy" and not e.args and not e.keywords
+              and isinstance(e.func.value, ast.Subscript) and src(e.func.value.value) == "phases" and isinstance(e.func.value.slice, ast.Tuple)
+              and len(e.func.value.slice.elts) == 2 and src(e.func.value.slice.elts[0]) == ":" and isinstance(e.func.value.slice.elts[1], ast.Slice))
+        if not ok: raise U("%s: mat.append(%s) is not mat.append(phases[:, LO:HI].copy())" % (where, src(e)))
+        sl = e.func.value.slice.elts[1]
+        if sl.step is not None or not all(isinstance(x, ast.Constant) and isinstance(x.value, int) and x.value >= 0 for x in (sl.lower, sl.upper)): raise U("%s: allele slice %s" % (where, src(sl)))
+        defs.append(P.definition("k_vcf_%s_allele_lo" % tag, [], "nat", "%d%%nat" % sl.lower.value, "%s: mat.append(%s)" % (where, src(e))))
+        defs.append(P.definition("k_vcf_%s_allele_hi" % tag, [], "nat", "%d%%nat" % sl.upper.value, "%s: mat.append(%s)" % (where, src(e))))
+        post = body[k + 1:]
+        e = post[0] if post else None
+        ok = (isinstance(e, ast.Assign) and src(e.targets[0]) == "mat" and isinstance(e.value, ast.Call) and isinstance(e.value.func, ast.Attribute)
+              and e.value.func.attr == "transpose" and src(e.value.func.value) == "numpy.int8(mat)" and not e.value.keywords
+              and all(isinstance(x, ast.Constant) and isinstance(x.value, int) for x in e.value.args))
+        if not ok: raise U("%s: after the loop: `%s` is not mat = numpy.int8(mat).transpose(a, b, c)" % (where, src(e) if e is not None else None))
+        defs.append(P.definition("k_vcf_%s_transpose" % tag, [], "list nat", "[" + "; ".join("%d%%nat" % x.value for x in e.value.args) + "]",
+                                 "%s: %s   [the list built in the loop has axes (variant, taxon, allele)]" % (where, src(e))))
+        rest = [src(x) for x in post[1:]]
+        if tag == "gm":
+            if len(post) < 3 or rest[0] != "ploidy = mat.shape[0]": raise U("%s: `%s`" % (where, rest[:1]))
+            e = post[2]
+            ok = (isinstance(e, ast.Assign) and src(e.targets[0]) == "mat" and isinstance(e.value, ast.Call) and src(e.value.func) == "mat.sum" and len(e.value.args) == 1
+                  and isinstance(e.value.args[0], ast.Constant) and isinstance(e.value.args[0].value, int) and [(x.arg, src(x.value)) for x in e.value.keywords] == [("dtype", "'int8'")])
+            if not ok: raise U("%s: `%s` is not mat = mat.sum(<axis>, dtype = 'int8')" % (where, src(e)))
+            defs.append(P.definition("k_vcf_gm_sum_axis", [], "nat", "%d%%nat" % e.value.args[0].value, "%s: %s" % (where, src(e))))
+            rest = rest[2:]
+        if rest[:3] != ["vrnt_chrgrp = numpy.int64(vrnt_chrgrp)", "vrnt_phypos = numpy.int64(vrnt_phypos)", "vrnt_name = numpy.array(vrnt_name, dtype=object)"]:
+            raise U("%s: array conversions are %s" % (where, rest[:3]))
+        if rest[4:] != ["if auto_group_vrnt:\n    out.group_vrnt()", "return out"] or len(rest) != 6: raise U("%s: tail is %s" % (where, rest[3:]))
+        c = post[-3]
+        if not (isinstance(c, ast.Assign) and src(c.targets[0]) == "out" and isinstance(c.value, ast.Call) and src(c.value.func) == "cls" and not c.value.args
+                and all(x.arg is not None for x in c.value.keywords)):
+            raise U("%s: `%s` is not out = cls(<keywords>)" % (where, src(c)))
+        kws = sorted((x.arg, src(x.value)) for x in c.value.keywords)
+        defs.append(P.definition("k_vcf_%s_ctor" % tag, [], "list (String.string * String.string)", "[" + "; ".join('("%s"%%string, "%s"%%string)' % kv for kv in kws) + "]",
+                                 "%s: %s   (constructor field, local it is filled from; sorted by field)" % (where, src(c).replace("\n", " "))))
+
+
 def translate(repo, gen_dir, classes):
     """classes: [(harness key, class object)] of the HDF5-persistable classes (imported from `repo` by the harness)"""
     defs = []
@@ -607,6 +713,7 @@ def translate(repo, gen_dir, classes):
     ncol = colsel_kernels(repo, defs)
     vm_kernels(repo, defs)
     nopen = open_kernels(classes, defs)
+    vcf_kernels(repo, defs)
     text = (P.HEADER % "harness/translate/c16_kernel.py") + \
         "From Coq Require Import ZArith Bool List String PrimFloat.\nImport ListNotations.\nLocal Open Scope Z_scope.\n\n" + "\n".join(defs)
     path = os.path.join(gen_dir, "C16_Kernel.v")
